@@ -33,6 +33,7 @@
 #  include <unifex/linux/safe_file_descriptor.hpp>
 
 #  include <atomic>
+#  include <cerrno>
 #  include <cstddef>
 #  include <cstdint>
 #  include <optional>
@@ -550,6 +551,9 @@ class io_epoll_context::read_sender {
       UNIFEX_ASSERT(context_.is_running_on_io_thread());
 
       auto result = readv(fd_, buffer_, 1);
+      if (result < 0) {
+        result = -errno;
+      }
 
       if (result == -EAGAIN || result == -EWOULDBLOCK || result == -EPERM) {
         if constexpr (is_stop_ever_possible) {
@@ -623,6 +627,9 @@ class io_epoll_context::read_sender {
           self.context_.epollFd_.get(), EPOLL_CTL_DEL, self.fd_, &event);
 
       auto result = readv(self.fd_, self.buffer_, 1);
+      if (result < 0) {
+        result = -errno;
+      }
       UNIFEX_ASSERT(result != -EAGAIN);
       UNIFEX_ASSERT(result != -EWOULDBLOCK);
       if (result == -ECANCELED) {
@@ -778,6 +785,9 @@ class io_epoll_context::write_sender {
       UNIFEX_ASSERT(context_.is_running_on_io_thread());
 
       auto result = writev(fd_, buffer_, 1);
+      if (result < 0) {
+        result = -errno;
+      }
 
       if (result == -EAGAIN || result == -EWOULDBLOCK || result == -EPERM) {
         if constexpr (is_stop_ever_possible) {
@@ -852,6 +862,9 @@ class io_epoll_context::write_sender {
       }
 
       auto result = writev(self.fd_, self.buffer_, 1);
+      if (result < 0) {
+        result = -errno;
+      }
       UNIFEX_ASSERT(result != -EAGAIN);
       UNIFEX_ASSERT(result != -EWOULDBLOCK);
       if (result == -ECANCELED) {
